@@ -23,7 +23,7 @@ Dummy == [files |-> <<>>, cfg |-> [kind |-> "over", rf |-> 1, isolate |-> FALSE,
 
 TInit == TLCSet(1, 1) /\ TLCSet(2, 0) /\ l = 1 /\ inp = Dummy /\ stage = "done" /\ phase = "begin" /\ groups = {} /\ todo = {} /\ got = {} /\ pass = {} /\ failed = {}
 TReset == /\ IsEv("Reset")
-          /\ inp' = [files |-> R.inp.files, cfg |-> R.inp.cfg, bad |-> {}]
+          /\ inp' = [files |-> R.inp.files, cfg |-> R.inp.cfg, bad |-> ToSet(R.inp.bad)]
           /\ stage' = (IF R.inp.cfg.transform THEN "transform" ELSE "size") /\ phase' = "begin"
           /\ groups' = (IF R.inp.cfg.transform THEN {[len |-> 0, hash |-> {}, files |-> 1..Len(R.inp.files)]} ELSE {})
           /\ todo' = {} /\ got' = {} /\ pass' = {} /\ failed' = {}
@@ -42,6 +42,7 @@ Fail(name) == IF TLCGet(2) = 0 THEN TLCSet(2, l) /\ PrintT(<<"INVFAIL", name, l 
 Track == /\ TLCSet(1, IF TLCGet(1) > l THEN TLCGet(1) ELSE l)
          /\ (TypeOK \/ Fail("TypeOK")) /\ (Sound \/ Fail("Sound")) /\ (Complete \/ Fail("Complete")) /\ (CompleteSkip \/ Fail("CompleteSkip"))
          /\ (NeverSplit \/ Fail("NeverSplit")) /\ (FilterHonoured \/ Fail("FilterHonoured"))
+         /\ (BadAlone \/ Fail("BadAlone")) /\ (OthersUnaffected \/ Fail("OthersUnaffected"))
 Accepted == /\ TLCGet(2) = 0
             /\ \/ TLCGet(1) = Len(Rec) + 1
                \/ PrintT(<<"REJECTED", TLCGet(1), ToJson(Rec[TLCGet(1)])>>) /\ FALSE
